@@ -221,7 +221,13 @@ Definition start_cwd (k : kind) (root lead : string) (has_setup_py : bool) : str
     | KDir => root                       (* setup_dir = "" : no chdir *)
     | _ => root ++ "/" ++ lead           (* setup_dir = lead *)
     end
-  else root ++ "/" ++ ".".               (* setup_dir = "." for every packaging *)
+  else if cfg_only_dir_follows_cfg then
+    (* setup.cfg-only: setup_dir = dirname(<the setup.cfg find_in_archive located>) *)
+    match k with
+    | KDir => root
+    | _ => root ++ "/" ++ lead
+    end
+  else root ++ "/" ++ ".".               (* formerly: setup_dir = "." for every packaging *)
 
 (* os.chdir(sub) by the script, relative (source.py:165-176: abspath(new_dir) = cwd/sub) *)
 Definition chdir_rel (cwd sub : string) : string := cwd ++ "/" ++ sub.
